@@ -168,6 +168,33 @@ def one_spec(ctx, name, kw, data, pkinds, tag):
     except Exception as ex:
       ctx.fail_input('preprocessor_error_wrapped', '%s: preprocessor exception surfaces as %s' % (what, type(ex).__name__),
                      dict(estimator=name, method=what), observed=str(ex)[:200])
+  # ... also when the preprocessor is an array / a nested list that does not hold the point asked for (numpy's IndexError)
+  for pk in ('ndarray', 'list'):
+    kwa = dict(kw)
+    kwa['preprocessor'] = np.array(X) if pk == 'ndarray' else np.array(X).tolist()
+    bad_train = np.array(train_idx).copy()
+    bad_train.flat[0] = n + 3                                  # one indicator beyond the bank
+    bad_pairs = np.array(pair_idx).copy()
+    bad_pairs.flat[-1] = n + 3
+    bad_pts = np.array(pts_idx).copy()
+    bad_pts.flat[0] = n + 3
+    for what in ('fit', 'transform', 'pair_distance', 'pair_score'):
+      ctx.count('preprocessor_error_wrapped', 1)
+      try:
+        with warnings.catch_warnings():
+          warnings.simplefilter('ignore')
+          if what == 'fit':
+            fits.make_estimator(name, kwa).fit(bad_train, *extra)
+          else:
+            e = fits.make_estimator(name, kwa).fit(train_idx, *extra)
+            getattr(e, what)(bad_pts if what == 'transform' else bad_pairs)
+        ctx.fail_input('preprocessor_error_wrapped', '%s returns although an indicator is beyond the %s preprocessor' % (what, pk),
+                       dict(estimator=name, method=what, preprocessor=pk))
+      except PreprocessorError:
+        pass
+      except Exception as ex:
+        ctx.fail_input('preprocessor_error_wrapped', '%s: an indicator beyond the %s preprocessor surfaces as %s' % (what, pk, type(ex).__name__),
+                       dict(estimator=name, method=what, preprocessor=pk), observed=str(ex)[:200])
   ctx.sample(dict(estimator=name, train_indices=np.asarray(train_idx)[:5].tolist(), query_pair_indices=pair_idx[:2].tolist()), limit=3)
 
 
